@@ -13,7 +13,7 @@
    Proofs/Taproot.v shows that the stored value is the recursively recomputed one
    (tap_hash) for every node the algorithm builds.
 
-   Panics.  `outcome` distinguishes a normal result, a Go run-time panic (index
+   Panics.  `toutcome` distinguishes a normal result, a Go run-time panic (index
    out of range) and fuel exhaustion of the merge loop; Proofs shows that neither
    of the last two is reachable.
 
@@ -49,19 +49,19 @@ Definition base_leaf_version : byte := b8 (Z.to_N g_BaseElementsLeafVersion).
 
 (* ---------- leaves ---------- *)
 Record tapleaf := mk_tapleaf {
-  tl_version : byte;        (* txscript.TapscriptLeafVersion (uint8) *)
-  tl_script : bytes
+  tlf_version : byte;        (* txscript.TapscriptLeafVersion (uint8) *)
+  tlf_script : bytes
 }.
 
 (* TapElementsLeaf.TapHash: tagged(TapLeaf/elements, version || compactsize(len script) || script) *)
 Definition leaf_hash (l : tapleaf) : bytes :=
-  tagged_hash tag_leaf (tl_version l :: var_slice (tl_script l)).
+  tagged_hash tag_leaf (tlf_version l :: var_slice (tlf_script l)).
 
 (* chainhash.TaggedHash(TagTapBranchElements, l, r) *)
 Definition branch_hash_raw (l r : bytes) : bytes := tagged_hash tag_branch (l ++ r).
 
-(* ---------- outcome ---------- *)
-Inductive outcome (A : Type) : Type :=
+(* ---------- toutcome ---------- *)
+Inductive toutcome (A : Type) : Type :=
 | Done (a : A)
 | GoPanic
 | OutOfFuel.
@@ -69,15 +69,15 @@ Arguments Done {A} a.
 Arguments GoPanic {A}.
 Arguments OutOfFuel {A}.
 
-Definition obind {A B} (x : outcome A) (f : A -> outcome B) : outcome B :=
+Definition tobind {A B} (x : toutcome A) (f : A -> toutcome B) : toutcome B :=
   match x with Done a => f a | GoPanic => GoPanic | OutOfFuel => OutOfFuel end.
 
 (* s[i] = f(s[i]); index out of range panics *)
-Fixpoint upd {A} (i : nat) (f : A -> A) (l : list A) : outcome (list A) :=
+Fixpoint tupd {A} (i : nat) (f : A -> A) (l : list A) : toutcome (list A) :=
   match l, i with
   | [], _ => GoPanic
   | x :: r, O => Done (f x :: r)
-  | x :: r, S i' => obind (upd i' f r) (fun r' => Done (x :: r'))
+  | x :: r, S i' => tobind (tupd i' f r) (fun r' => Done (x :: r'))
   end.
 
 (* (s[:len-1], s[len-1]) *)
@@ -101,11 +101,11 @@ Section Tree.
   | TLeaf (h : bytes) (l : tapleaf)
   | TBranch (h : bytes) (a b : tnode).
 
-  Definition node_hash (n : tnode) : bytes :=
+  Definition tnode_hash (n : tnode) : bytes :=
     match n with TLeaf h _ => h | TBranch h _ _ => h end.
 
   Definition mk_leaf (l : tapleaf) : tnode := TLeaf (LH l) l.
-  Definition mk_branch (a b : tnode) : tnode := TBranch (branch (node_hash a) (node_hash b)) a b.
+  Definition mk_branch (a b : tnode) : tnode := TBranch (branch (tnode_hash a) (tnode_hash b)) a b.
 
   (* what TapHash() recomputes *)
   Fixpoint tap_hash (n : tnode) : bytes :=
@@ -151,7 +151,7 @@ Section Tree.
 
   (* first loop of AssembleTaprootScriptTree *)
   Fixpoint pair_pass (ix : index) (i : nat) (ls : list tapleaf) (brs : list tbranch)
-           (st : list proof_entry) : outcome (list tbranch * list proof_entry) :=
+           (st : list proof_entry) : toutcome (list tbranch * list proof_entry) :=
     match ls with
     | [] => Done (brs, st)
     | [leaf] =>
@@ -162,30 +162,30 @@ Section Tree.
             let bt := bnode btm in
             let lf := mk_leaf leaf in
             let brs' := ini ++ [(bt, lf)] in
-            obind (upd i (set_leaf_add leaf (node_hash bt)) st) (fun st1 =>
-            obind (upd (idx_get ix (node_hash (fst btm))) (add_proof (node_hash lf)) st1) (fun st2 =>
-            obind (upd (idx_get ix (node_hash (snd btm))) (add_proof (node_hash lf)) st2) (fun st3 =>
+            tobind (tupd i (set_leaf_add leaf (tnode_hash bt)) st) (fun st1 =>
+            tobind (tupd (idx_get ix (tnode_hash (fst btm))) (add_proof (tnode_hash lf)) st1) (fun st2 =>
+            tobind (tupd (idx_get ix (tnode_hash (snd btm))) (add_proof (tnode_hash lf)) st2) (fun st3 =>
             Done (brs', st3))))
         end
     | l :: r :: rest =>
         let ln := mk_leaf l in
         let rn := mk_leaf r in
-        obind (upd i (set_leaf_add l (node_hash rn)) st) (fun st1 =>
-        obind (upd (S i) (set_leaf_add r (node_hash ln)) st1) (fun st2 =>
+        tobind (tupd i (set_leaf_add l (tnode_hash rn)) st) (fun st1 =>
+        tobind (tupd (S i) (set_leaf_add r (tnode_hash ln)) st1) (fun st2 =>
         pair_pass ix (S (S i)) rest (brs ++ [(ln, rn)]) st2))
     end.
 
   (* for _, leaf := range descendants { proofs[index[leaf.TapHash()]].InclusionProof += h } *)
   Fixpoint add_to_leaves (ix : index) (ds : list tnode) (h : bytes) (st : list proof_entry)
-    : outcome (list proof_entry) :=
+    : toutcome (list proof_entry) :=
     match ds with
     | [] => Done st
-    | d :: r => obind (upd (idx_get ix (node_hash d)) (add_proof h) st) (add_to_leaves ix r h)
+    | d :: r => tobind (tupd (idx_get ix (tnode_hash d)) (add_proof h) st) (add_to_leaves ix r h)
     end.
 
   (* second loop: FIFO merging of the branches; fuel = number of branches *)
   Fixpoint merge_phase (ix : index) (fuel : nat) (brs : list tbranch) (st : list proof_entry)
-    : outcome (option tnode * list proof_entry) :=
+    : toutcome (option tnode * list proof_entry) :=
     match brs with
     | [] => Done (None, st)
     | [b] => Done (Some (bnode b), st)
@@ -195,20 +195,20 @@ Section Tree.
         | S f =>
             let L := bnode l in
             let R := bnode r in
-            obind (add_to_leaves ix (leaves_of L) (node_hash R) st) (fun st1 =>
-            obind (add_to_leaves ix (leaves_of R) (node_hash L) st1) (fun st2 =>
+            tobind (add_to_leaves ix (leaves_of L) (tnode_hash R) st) (fun st1 =>
+            tobind (add_to_leaves ix (leaves_of R) (tnode_hash L) st1) (fun st2 =>
             merge_phase ix f (rest ++ [(L, R)]) st2))
         end
     end.
 
   (* AssembleTaprootScriptTree: (RootNode, LeafMerkleProofs) *)
-  Definition assemble (ls : list tapleaf) : outcome (option tnode * list proof_entry) :=
+  Definition assemble (ls : list tapleaf) : toutcome (option tnode * list proof_entry) :=
     match ls with
     | [leaf] => Done (Some (mk_leaf leaf), [mk_pe leaf []])
     | _ =>
         let ix := build_index O ls [] in
         let st0 := repeat zero_entry (length ls) in
-        obind (pair_pass ix O ls [] st0) (fun p =>
+        tobind (pair_pass ix O ls [] st0) (fun p =>
         merge_phase ix (length (fst p)) (fst p) (snd p))
     end.
 
@@ -224,7 +224,7 @@ End Tree.
 
 
 (* ---------- control blocks ---------- *)
-Record cblock := mk_cb {
+Record cblock := mk_cblock {
   cb_key : bytes;          (* schnorr.SerializePubKey(InternalKey) *)
   cb_odd : bool;           (* OutputKeyYIsOdd *)
   cb_version : byte;       (* LeafVersion *)
@@ -240,8 +240,8 @@ Definition cb_node_size : nat := 32.
 Definition cb_max_size : nat := 33 + 32 * 128.
 
 (* secp256k1 field prime and group order *)
-Definition secp_p : Z := 0xFFFFFFFFFFFFFFFFFFFFFFFFFFFFFFFFFFFFFFFFFFFFFFFFFFFFFFFEFFFFFC2F%Z.
-Definition secp_n : Z := 0xFFFFFFFFFFFFFFFFFFFFFFFFFFFFFFFEBAAEDCE6AF48A03BBFD25E8CD0364141%Z.
+Definition tap_p : Z := 0xFFFFFFFFFFFFFFFFFFFFFFFFFFFFFFFFFFFFFFFFFFFFFFFFFFFFFFFEFFFFFC2F%Z.
+Definition tap_n : Z := 0xFFFFFFFFFFFFFFFFFFFFFFFFFFFFFFFEBAAEDCE6AF48A03BBFD25E8CD0364141%Z.
 
 Fixpoint powmod_pos (b : Z) (e : positive) (m : Z) : Z :=
   match e with
@@ -253,9 +253,9 @@ Fixpoint powmod_pos (b : Z) (e : positive) (m : Z) : Z :=
 (* schnorr.ParsePubKey on 32 bytes: x < p and x^3 + 7 is a square mod p (Euler) *)
 Definition x_on_curve (kx : bytes) : bool :=
   let x := Z.of_N (be_dec kx) in
-  (Nat.eqb (length kx) 32) && (x <? secp_p)%Z &&
-  (match ((secp_p - 1) / 2)%Z with
-   | Zpos e => (powmod_pos ((x * x * x + 7) mod secp_p)%Z e secp_p =? 1)%Z
+  (Nat.eqb (length kx) 32) && (x <? tap_p)%Z &&
+  (match ((tap_p - 1) / 2)%Z with
+   | Zpos e => (powmod_pos ((x * x * x + 7) mod tap_p)%Z e tap_p =? 1)%Z
    | _ => false
    end).
 
@@ -270,14 +270,14 @@ Definition parse_cb (liftable : bytes -> bool) (bs : bytes) : option cblock :=
        | b0 :: rest =>
            let key := firstn 32 rest in
            if liftable key then
-             Some (mk_cb key (N.testbit (n8 b0) 0) (b8 (N.land (n8 b0) 0xfe)) (skipn 32 rest))
+             Some (mk_cblock key (N.testbit (n8 b0) 0) (b8 (N.land (n8 b0) 0xfe)) (skipn 32 rest))
            else None
        end.
 
 (* TapscriptElementsProof.ToControlBlock; the parity of the output key is computed
    on the curve (see Section EC) *)
 Definition to_cb (e : proof_entry) (keyx : bytes) (odd : bool) : cblock :=
-  mk_cb keyx odd (tl_version (pe_leaf e)) (pe_proof e).
+  mk_cblock keyx odd (tlf_version (pe_leaf e)) (pe_proof e).
 
 (* ControlBlock.RootHash(revealedScript) *)
 Definition cb_root (LH : tapleaf -> bytes) (BHR : bytes -> bytes -> bytes) (c : cblock) (script : bytes) : bytes :=
@@ -286,7 +286,7 @@ Definition cb_root (LH : tapleaf -> bytes) (BHR : bytes -> bytes -> bytes) (c : 
 (* ---------- psetv2 input key pair InputTapLeafScript (0x15) ---------- *)
 (* serializer: KeyData = control block bytes, Value = script || leaf version of the leaf *)
 Definition tapleaf_kv (l : tapleaf) (c : cblock) : bytes * bytes :=
-  (ser_cb c, tl_script l ++ [tl_version l]).
+  (ser_cb c, tlf_script l ++ [tlf_version l]).
 
 Inductive kv_result := KvOk (l : tapleaf) (c : cblock) | KvErr | KvPanic.
 
@@ -305,7 +305,7 @@ Definition parse_tapleaf_kv (liftable : bytes -> bool) (key value : bytes) : kv_
 
 (* ---------- scalars ---------- *)
 (* ModNScalar.SetBytes / SetByteSlice: big-endian, reduced mod n *)
-Definition scalar_of_bytes (b : bytes) : Z := (Z.of_N (be_dec b) mod secp_n)%Z.
+Definition scalar_of_bytes (b : bytes) : Z := (Z.of_N (be_dec b) mod tap_n)%Z.
 Definition scalar_to_bytes (z : Z) : bytes := be_enc 32 (Z.to_N z).
 
 (* tagged(TapTweak/elements, xonly key || root) as a scalar *)
@@ -317,9 +317,9 @@ Definition tweak_scalar (kx root : bytes) : Z := scalar_of_bytes (tweak_hash kx 
    tweaked scalar.  Returns (returned key, caller's key afterwards).
    pk_odd / pkx: parity and x-only bytes of d*G (curve arithmetic: supplied). *)
 Definition tweak_priv_with (TS : bytes -> bytes -> Z) (pk_odd : bool) (pkx : bytes) (d : Z) (root : bytes) : Z * Z :=
-  let d1 := if pk_odd then ((secp_n - d) mod secp_n)%Z else d in
+  let d1 := if pk_odd then ((tap_n - d) mod tap_n)%Z else d in
   let t := TS pkx root in
-  let d2 := ((d1 + t) mod secp_n)%Z in
+  let d2 := ((d1 + t) mod tap_n)%Z in
   (d2, d2).
 Definition tweak_priv := tweak_priv_with tweak_scalar.
 
